@@ -53,14 +53,22 @@ def oracle_sweep(run, pid, variants, tier, opt="-O0"):
 # ------------------------------------------------------------------------------------------ C03
 C03_LEVELS = [  # (module suffix, flags of the traced build (simd_shim), flags of the real-intrinsics builds)
     ("sse2", ["-DGLM_FORCE_SSE2"], ["-msse2"]), ("sse3", ["-DGLM_FORCE_SSE3"], ["-msse3"]), ("ssse3", ["-DGLM_FORCE_SSSE3"], ["-mssse3"]),
-    ("sse41", ["-DGLM_FORCE_SSE41"], ["-msse4.1"]), ("sse42", ["-DGLM_FORCE_SSE42"], ["-msse4.2"]), ("avx", ["-DGLM_FORCE_AVX"], ["-mavx"]), ("avx2", ["-DGLM_FORCE_AVX2"], ["-mavx2"]),
-    ("fma", ["-DGLM_FORCE_AVX2", "-DGLM_FORCE_FMA"], ["-mavx2", "-mfma", "-DGLM_FORCE_FMA"]),
-    ("sse2w", ["-DGLM_FORCE_SSE2", "-DGLM_FORCE_QUAT_DATA_WXYZ"], ["-msse2", "-DGLM_FORCE_QUAT_DATA_WXYZ"]), ("avx2w", ["-DGLM_FORCE_AVX2", "-DGLM_FORCE_QUAT_DATA_WXYZ"], ["-mavx2", "-DGLM_FORCE_QUAT_DATA_WXYZ"])]
+    # -D__SSE4_1__: the macro the compiler defines from -msse4.1 on (compute_vec_mul<int> tests it directly); the traced build has no -m flag
+    ("sse41", ["-DGLM_FORCE_SSE41", "-D__SSE4_1__=1"], ["-msse4.1"]), ("sse42", ["-DGLM_FORCE_SSE42", "-D__SSE4_1__=1"], ["-msse4.2"]), ("avx", ["-DGLM_FORCE_AVX", "-D__SSE4_1__=1"], ["-mavx"]), ("avx2", ["-DGLM_FORCE_AVX2", "-D__SSE4_1__=1"], ["-mavx2"]),
+    ("fma", ["-DGLM_FORCE_AVX2", "-DGLM_FORCE_FMA", "-D__SSE4_1__=1"], ["-mavx2", "-mfma", "-DGLM_FORCE_FMA"]),
+    ("sse2w", ["-DGLM_FORCE_SSE2", "-DGLM_FORCE_QUAT_DATA_WXYZ"], ["-msse2", "-DGLM_FORCE_QUAT_DATA_WXYZ"]), ("avx2w", ["-DGLM_FORCE_AVX2", "-DGLM_FORCE_QUAT_DATA_WXYZ", "-D__SSE4_1__=1"], ["-mavx2", "-DGLM_FORCE_QUAT_DATA_WXYZ"])]
 C03_EDGES = ["sse2_pure", "sse3_sse2", "ssse3_sse3", "sse41_pure", "sse42_sse41", "avx_sse41", "avx2_avx", "fma_avx2", "pure_purew", "sse2w_sse2", "avx2w_avx2"]
 
 
 def run_C03(run):
     T = core.TRACE
+    # 0. GLM's integer SIMD specialisations are keyed on `int` / `unsigned int`, which no macro can rename: a copy of glm/ with the
+    #    type arguments of those specialisations retargeted to the tracing integers (bodies untouched) is what the SIMD traces read
+    intsrc = os.path.join(run.dir, "glm_int")
+    rc, out, err, dt = core.sh(["python3", os.path.join(T, "gen_C03_intsrc.py"), core.REPO, intsrc], timeout=300)
+    run.logonly("== gen_C03_intsrc rc=%d" % rc, out[-1500:], err[-1500:])
+    if rc != 0: run.broken.append({"what": "the integer SIMD specialisations could not be retargeted (gen_C03_intsrc.py)", "detail": (err or out)[-1500:]})
+    run.cov["retargeted_integer_specialisations"] = dict(re.findall(r"REWRITE (\S+) substitutions=(\d+)", out))
     # 1. the generic code, and GLM's intrinsic kernels at every level, as decision trees; the SIMD traces are validated against
     #    the same entries built with the compiler's own intrinsics (golden outputs on generated inputs)
     def simd(level):
@@ -74,7 +82,7 @@ def run_C03(run):
         rc, out, err, dt = core.sh([gold, os.devnull, os.path.join(run.dir, "gold_%s.log" % name)], timeout=900, env=env)
         if rc != 0 or not os.path.exists(gtxt):
             run.broken.append({"what": "the C03 catalogue built with the real intrinsics (%s) crashed" % name, "detail": err[-1500:]}); return None
-        return run.build_trace("tr_C03", "Gen_C03_" + name, ["-DVT_SIMD", "-DGLM_FORCE_INTRINSICS"] + tfl, extra_env={"VT_GOLDEN_IN": gtxt})
+        return run.build_trace("tr_C03", "Gen_C03_" + name, ["-DVT_SIMD", "-DGLM_FORCE_INTRINSICS"] + tfl, extra_env={"VT_GOLDEN_IN": gtxt}, inc_first=[intsrc])
     jobs = [lambda: run.build_trace("tr_C03", "Gen_C03_pure", ["-DGLM_FORCE_PURE"]), lambda: run.build_trace("tr_C03", "Gen_C03_purew", ["-DGLM_FORCE_PURE", "-DGLM_FORCE_QUAT_DATA_WXYZ"])] + [lambda l=l: simd(l) for l in C03_LEVELS]
     stats = par(jobs)
     trace_cov(run, stats)
@@ -93,7 +101,7 @@ def run_C03(run):
             m = re.match(r"EDGE (\w+) -> (\w+) : (\d+) entries", l)
             if m: edges.append((m.group(1), m.group(2), int(m.group(3))))
         return [os.path.join(run.dir, "P_C03_%s.v" % e) for e in C03_EDGES if os.path.exists(os.path.join(run.dir, "P_C03_%s.v" % e))]
-    run.prove(gens, ["C03/A_C03_defs.v", "C03/P_C03_tac.v"], [], "C03/Properties_C03.v", timeout=1500, hook=hook)
+    run.prove(gens, ["C03/A_C03_defs.v", "C03/A_C03_int.v", "C03/P_C03_tac.v", "C03/P_C03_itac.v"], [], "C03/Properties_C03.v", timeout=1500, hook=hook)
     run.cov["instruction_set_levels"] = [l[0] for l in C03_LEVELS]
     run.cov["entries_compared_by_proof_per_edge"] = dict(("%s->%s" % (a, b), n) for a, b, n in edges)
     # 2. hardware: one operation table built pure and at every level, compared with the tolerances the property states
@@ -128,6 +136,10 @@ def run_C03(run):
                 m = re.search(r"rows=(\d+).*lanes=(\d+)", l)
                 if m: rows = int(m.group(1)); lanes += int(m.group(2))
         if rc not in (0, 1): run.broken.append({"what": "table comparison failed for %s" % name, "detail": (e2 or out)[-1500:]})
+    for name, (outs, err) in res.items():   # the tables are large: keep only the first of each build for replay
+        for f in (outs or [])[1:]:
+            try: os.remove(f)
+            except OSError: pass
     # 3. rounding to integer on every binary32 value (the ties that the real-number theorem round4 leaves out)
     rsrc = os.path.join(core.VERIF, "tools", "oracle", "oracle_C03_round.cpp"); rcases = 0
     def rnd(isa):
@@ -145,14 +157,15 @@ def run_C03(run):
     run.assumptions = ["SemR: every traced operation denotes its exact real function (rcp = 1/x, rsqrt = 1/sqrt x, fma = a*b+c, min/max = the smaller/larger real, CopySign takes the sign of a real): two kernels with the same meaning differ only by rounding; identical trees (decided by computation) execute the same IEEE operations on the same operands and are bit-identical",
                        "simd_shim.hpp models each x86 intrinsic GLM uses lane by lane (mask-and/andnot/or as a branch on the comparison; sign-bit masks as FAbs / CopySign / Neg; dp_ps and hadd_ps in the order the Intel SDM gives); validated on every run against the same entries built with the compiler's intrinsics on generated inputs (bit-exact, %d trials)" % run.cov.get("translator_validation_trials", 0),
                        "NaN operands and the sign of zero are outside the theorems (minps/maxps and std::fmin differ there) and outside the table comparison (GLSL leaves them undefined); the table treats -0 and +0 as the same value",
-                       "integer SIMD specialisations (ivec4, uvec4) are not traced (the element type int cannot be renamed): compared by the operation table only",
+                       "integer entries (ivec4 / uvec4 / ivec3) are traced through a copy of glm/ in which gen_C03_intsrc.py retargets the type arguments of the integer SIMD specialisations to the tracing integers (function bodies untouched; the real build is the golden side of the validation), and compared in 32-bit wrap-around arithmetic (SemZ, strict = false); 64-bit and 8/16-bit integer vectors have no SIMD specialisation in GLM",
                        "round4 is a partial theorem (off the ties); floor4/ceil4/fract4/mod4 at the SSE2..SSSE3 levels use that binary32 values >= 2^23 are integers (hypothesis D_big) and |x/y| < 2^23 (D_mod); all 2^32 binary32 values are run through round/floor/ceil/fract on hardware in this check",
                        "the 8 * 2^-24 * scale bound on multi-term expressions and the n * 2^-11 bound on lowp approximations are checked on hardware by the table, not proved"]
     run.samples.append("operation table: %d rows x %d builds (pure, pure+WXYZ, %s), seeds %s; exact rows bit-compared (as IEEE values), multi-term rows within 8*2^-24*scale, lowp rows within n*2^-11" % (rows, len(builds), " ".join(l[0] for l in C03_LEVELS), seeds))
     return run.finish(TRUST_COMMON + ["simd_shim.hpp (~200 lines): lane-wise model of the x86 intrinsics, validated against the compiler's intrinsics on every run (testing, not proof)",
+                                      "gen_C03_intsrc.py (60 lines): textual retargeting of the integer specialisation headers in a copy of glm/; a wrong rewrite fails to compile or fails the validation against the real build",
                                       "gen_C03_proofs.py: asks Coq which entries are not identical trees and writes one lemma statement per such entry with a fixed tactic (cannot make a false lemma pass)",
                                       "oracle_C03.cpp + cmp_C03.py (operation table, pure against every instruction-set level) and oracle_C03_round.cpp (all 2^32 binary32 values): violation search and the only check of the rounding bounds"],
-                      "theorems: 125 traced operations (float and double) x 10 SIMD configurations, all real inputs of each entry's domain; oracle: operation table on a generated corpus under 12 builds, rounding functions on every binary32 value",
+                      "theorems: 160 traced operations (float, double, int, uint) x 10 SIMD configurations, all real inputs of each entry's domain; oracle: operation table on a generated corpus under 12 builds, rounding functions on every binary32 value",
                       CHECKER)
 
 
